@@ -486,8 +486,11 @@ func (w *world) apply(line string) string {
 		if err != nil {
 			panic(err)
 		}
+		erf, ert := w.expectedPayouts(from, to, v)
+		bf, bt := w.bal(from), w.bal(to)
 		kind = kindOf(w.ethTx(from, data), true)
 		class = w.checkTransfer("transferShares", before, kind, from, to, v, x, recv)
+		w.checkPayouts("transferShares", kind, from, to, v, erf, ert, bf, bt)
 	case "transferFrom":
 		a := ints(4)
 		x := bigOf(f[5])
@@ -499,8 +502,11 @@ func (w *world) apply(line string) string {
 		if err != nil {
 			panic(err)
 		}
+		erf, ert := w.expectedPayouts(from, to, v)
+		bf, bt := w.bal(from), w.bal(to)
 		kind = kindOf(w.ethTx(sp, data), true)
 		class = w.checkTransfer("transferFromShares", before, kind, from, to, v, x, recv)
+		w.checkPayouts("transferFromShares", kind, from, to, v, erf, ert, bf, bt)
 		allow1 := app.StakingKeeper.GetAllowance(w.ctx(), w.vals[v], w.accs[from], w.accs[sp])
 		if kind == "ok" {
 			if allow0.Cmp(x) < 0 {
@@ -531,6 +537,63 @@ func (w *world) apply(line string) string {
 }
 
 // checkTransfer evaluates the transfer clauses of the property on the real state; returns the input class.
+// expectedPayout runs the SDK's own WithdrawDelegationRewards for d at validator v on a branch of the state and
+// returns the coins it pays (nil if d has no delegation there).
+func (w *world) expectedPayouts(from, to, v int) (rf, rt *big.Int) {
+	cctx, _ := w.ctx().CacheContext()
+	get := func(d int) *big.Int {
+		if _, err := w.s.App.StakingKeeper.GetDelegation(cctx, w.accs[d], w.vals[v]); err != nil {
+			return nil
+		}
+		var amt *big.Int
+		hx.Try(func() error {
+			coins, err := w.s.App.DistrKeeper.WithdrawDelegationRewards(cctx, w.accs[d], w.vals[v])
+			if err == nil {
+				amt = coins.AmountOf(fxtypes.DefaultDenom).BigInt()
+			}
+			return err
+		})
+		return amt
+	}
+	rf = get(from)
+	if to != from {
+		rt = get(to)
+	}
+	return rf, rt
+}
+
+// pendingNextBlock: rewards the SDK would compute for d one block later with no allocation in between.
+func (w *world) pendingNextBlock(d, v int) (string, bool) {
+	cctx, _ := w.ctx().CacheContext()
+	cctx = cctx.WithBlockHeight(cctx.BlockHeight() + 1)
+	app := w.s.App
+	res := "0"
+	r := hx.Try(func() error {
+		val, err := app.StakingKeeper.Validator(cctx, w.vals[v])
+		if err != nil {
+			return err
+		}
+		del, err := app.StakingKeeper.Delegation(cctx, w.accs[d], w.vals[v])
+		if err != nil {
+			return nil // no delegation left: nothing pending
+		}
+		ending, err := app.DistrKeeper.IncrementValidatorPeriod(cctx, val)
+		if err != nil {
+			return err
+		}
+		rw, err := app.DistrKeeper.CalculateDelegationRewards(cctx, val, del, ending)
+		if err != nil {
+			return err
+		}
+		res = decCoinsRaw(rw)
+		return nil
+	})
+	if r != "ok" {
+		return r, false
+	}
+	return res, res == "0"
+}
+
 func (w *world) checkTransfer(name string, before snap, kind string, from, to, v int, x *big.Int, recv bool) string {
 	after := w.snapshot()
 	xs := sdkmath.LegacyNewDecFromBigInt(x)
@@ -589,6 +652,38 @@ func (w *world) checkTransfer(name string, before snap, kind string, from, to, v
 			before.sh(from, v), after.sh(from, v), before.sh(to, v), after.sh(to, v)))
 	}
 	return class
+}
+
+func (w *world) bal(d int) sdkmath.Int {
+	return w.s.App.BankKeeper.GetBalance(w.ctx(), w.accs[d], fxtypes.DefaultDenom).Amount
+}
+
+// checkPayouts: each party of a successful transfer between different accounts received exactly what the SDK's own
+// WithdrawDelegationRewards pays at that moment, and nothing is pending for either right afterwards.
+func (w *world) checkPayouts(name, kind string, from, to, v int, erf, ert *big.Int, bf, bt sdkmath.Int) {
+	if kind != "ok" || from == to || w.dead {
+		return
+	}
+	gf := w.bal(from).Sub(bf).BigInt()
+	gt := w.bal(to).Sub(bt).BigInt()
+	if erf != nil && gf.Cmp(erf) != 0 {
+		w.violate(fmt.Sprintf("%s paid the sender %s reward coins, accrued up to now: %s", name, gf, erf))
+		return
+	}
+	want := big.NewInt(0)
+	if ert != nil {
+		want = ert
+	}
+	if gt.Cmp(want) != 0 {
+		w.violate(fmt.Sprintf("%s paid the recipient %s reward coins, accrued up to now: %s", name, gt, want))
+		return
+	}
+	for _, d := range []int{from, to} {
+		if p, ok := w.pendingNextBlock(d, v); !ok {
+			w.violate(fmt.Sprintf("%s left pending rewards %s (raw 18-decimal) for a party right after the transfer with no allocation in between (starting info does not point at the period just ended)", name, p))
+			return
+		}
+	}
 }
 
 // ---------------------------------------------------------------------------------------------------------
